@@ -38,6 +38,7 @@ SELECT = {
     "C04": lambda f: not (f["pred"] or f["assert"] or f["oc"]),
     "C06": lambda f: not (f["pred"] or f["assert"] or f["oc"]),
     "C05": lambda f: not (f["pred"] or f["assert"] or f["oc"] or f["leftrec"] or f["empty_rule"]),
+    "C08": lambda f: f["oc"],
 }
 
 
@@ -93,7 +94,7 @@ def sigs_of_flat(flat):
 
 KEEP_EV = {
     "C01": (), "C03": (), "C04": (), "C06": (),
-    "C02": ("create", "delete"), "C05": ("act",), "C16": ("pred",),
+    "C02": ("create", "delete"), "C05": ("act",), "C16": ("pred",), "C08": ("create", "delete", "act"),
 }
 
 
@@ -108,12 +109,14 @@ def lean_outcome(o, prop):
                 ev.append({"e": "delete", "kind": x["kind"]})
             elif x["e"] == "pred":
                 ev.append({"e": "pred", "pos": x["pos"], "peek": x["peek"], "left": x["left"]})
+            elif x["e"] == "act":
+                ev.append({"e": "act", "ioc": x["ioc"]})
     return {
         "en": o["en"], "w": o["w"], "s": o["s"], "panic": o["panic"], "walkpanic": o["walkpanic"],
         "flat": o["flat"] if prop == "C02" else [["r", "x", 0]],
         "tree": o["tree"], "diags": o["diags"], "ev": ev,
         "acts": [x["id"] for x in o.get("events", []) if x["e"] == "act"],
-        "sigs": sigs_of_flat(o["flat"]) if prop == "C02" else [],
+        "sigs": sigs_of_flat(o["flat"]) if prop in ("C02", "C08") else [],
     }
 
 
@@ -255,7 +258,12 @@ def judge(prop, tier):
         "binding_selftest": selftest,
         "exhaustive": True,
     }
-    if prop in ("C01", "C03"):
+    if prop == "C08":
+        ref = reference_stage(rep, [b for b in sel if not (b.feat["pred"] or b.feat["assert"])], cap)
+        rep.coverage["reference_runs"] = ref
+        rep.coverage["states"] += ref["states"]
+        rep.coverage["transitions"] += ref["transitions"]
+    if prop in ("C01", "C03", "C08"):
         # machine specification run on the same points: drift report + model-level invariants
         mach, _ = machine_stage(sel, cap)
         rep.coverage["machine_conformance"] = mach
@@ -279,6 +287,7 @@ NONTRIVIAL_RULE = {
     "C05": "the input is a sentence (no diagnostic) with at least one token",
     "C06": "the run produced at least one diagnostic",
     "C16": "the input contains at least one skipped or Error token",
+    "C08": "at least one node was discarded by backtracking (a deleted-callback fired) or the run has a diagnostic",
 }
 
 
@@ -299,6 +308,8 @@ def nontrivial_count(prop, outs, pairs, b):
             n += (not o["diags"]) and len(o["w"]) > 0
         elif prop == "C16":
             n += any(t in skips for t in o["w"])
+        elif prop == "C08":
+            n += bool(o["diags"]) or any(x["e"] == "delete" for x in o["events"])
     return n
 
 
@@ -343,6 +354,9 @@ def corrupt_record(recs, prop):
             if not co["diags"] and "c" in co["tree"] and co["tree"]["c"]:
                 co["tree"]["c"] = co["tree"]["c"][1:]
                 return c
+        elif prop == "C08":
+            co["ev"] = co["ev"] + [{"e": "act", "ioc": True}]
+            return c
         elif prop == "C16":
             if c["so"]["diags"] != [] or True:
                 c["so"]["diags"] = c["so"]["diags"] + [[0, 1, "selftest"]]
@@ -481,3 +495,57 @@ def machine_stage(sel, cap):
             out["inv"][b.name] = {"count": len(iv), "what": iv[0]["what"], "input": outs[iv[0]["i"] - 1]["w"]}
         per[b.name] = (outs, res, dr, iv)
     return out, per
+
+
+def reference_stage(rep, sel, cap):
+    """C08 two-run theorem: every recorded run must be matched by a reference run (MC_P2R)."""
+    def one(b):
+        outs, meta = outcomes_for(b, cap, False)
+        wd = cache_dir("p2", b.name)
+        gfile = os.path.join(wd, "GM.ndjson")
+        write_ndjson(gfile, [machine_grammar(b)])
+        rfile = os.path.join(wd, "RR.ndjson")
+        recs = [machine_record(o) for o in outs]
+        # binding self-test: a record with an impossible diagnostic must stay unmatched
+        import copy
+        st = None
+        for r in recs:
+            if not r["panic"]:
+                st = copy.deepcopy(r)
+                st["dl"] = st["dl"] + [len(st["w"])] * 2
+                break
+        if st:
+            recs.append(st)
+        write_ndjson(rfile, recs)
+        res = run_tlc("MC_P2R", "MC_P2R.cfg", env={"GFILE": gfile, "RFILE": rfile}, workers=2,
+                      timeout=1500, xmx="3g", job="p2r-%s" % b.name)
+        return b, outs, res, st is not None
+    out = {"grammars": 0, "records": 0, "matched": 0, "states": 0, "transitions": 0, "selftest_unmatched": 0}
+    for b, outs, res, has_st in parallel(one, sel):
+        if not res.ok:
+            log(res.raw[-2000:])
+            raise ToolError("TLC reference run failed for %s: %s %s" % (b.name, res.error, res.violated))
+        n = len(outs)
+        matched = {m["i"] for m in res.payload("MATCH") if m}
+        out["grammars"] += 1
+        out["records"] += n
+        out["states"] += res.distinct
+        out["transitions"] += res.generated
+        if has_st and (n + 1) not in matched:
+            out["selftest_unmatched"] += 1
+        for i, o in enumerate(outs, 1):
+            if o["panic"]:
+                continue
+            if i in matched:
+                out["matched"] += 1
+                continue
+            key = "C08:no_reference_run:%s:%d:%s:" % (b.name, o["en"], " ".join(o["w"]))
+            desc = ("C08: no choice of alternatives makes the reference run (chosen alternative executed directly) end "
+                    "with the tree and diagnostics the real parser returned; grammar %s input [%s] diags=%s" %
+                    (b.name, " ".join(o["w"]), [d[:2] for d in o["diags"]]))
+            rep.violation(key, desc, {"property": "C08", "why": "no_reference_run", "grammar": b.name,
+                                      "grammar_text": b.text, "entry": o["en"], "input": o["w"], "script": o["s"],
+                                      "outcome": o})
+    if out["selftest_unmatched"] < out["grammars"]:
+        raise ToolError("reference binding self-test failed: an impossible record was matched")
+    return out
